@@ -220,6 +220,8 @@ class EvalMixin(object):
             return st.env[node.id]
         if node.id in self.builtins:
             return self.builtins[node.id]
+        if node.id in self.unit.global_callees:
+            return self.unit.global_callees[node.id]
         if self.in_contract and node.id in self.unit.prebind:
             st.env[node.id] = self.make_value(self.unit.prebind[node.id], st, node.id)   # unbound yet: arbitrary
             return st.env[node.id]
@@ -244,7 +246,7 @@ class EvalMixin(object):
         return st.alloc(HDict(items=items))
 
     def ev_IfExp(self, node, st):
-        c = self.truth(self.ev(node.test, st), st)
+        c = self.ev_truth(node.test, st)
         st.guards.append(c)
         a = self.ev(node.body, st)
         st.guards.pop()
@@ -293,6 +295,27 @@ class EvalMixin(object):
             return VPy(z3.If(c, self.to_py(a), self.to_py(b)))
         except OutOfSubset:
             raise OutOfSubset("conditional expression joining %r and %r" % (a, b), node)
+
+    def ev_truth(self, node, st):
+        """truth value of an expression used as a condition (no need to build `a and b`'s operand value)"""
+        if isinstance(node, ast.BoolOp):
+            ts = []
+            pushed = 0
+            try:
+                for e in node.values:
+                    t = self.ev_truth(e, st)
+                    ts.append(t)
+                    st.guards.append(t if isinstance(node.op, ast.And) else z3.Not(t))
+                    pushed += 1
+            finally:
+                for _ in range(pushed):
+                    st.guards.pop()
+            return z3.And(*ts) if isinstance(node.op, ast.And) else z3.Or(*ts)
+        if isinstance(node, ast.UnaryOp) and isinstance(node.op, ast.Not):
+            return z3.Not(self.ev_truth(node.operand, st))
+        v = self.ev(node, st)
+        t = self.truth(v, st)
+        return t
 
     def ev_BoolOp(self, node, st):
         # value semantics only needed when operands are not bool: `a or b` returning operands
@@ -645,6 +668,10 @@ class EvalMixin(object):
             key = VStr(PyVal.ps(key.e))
         if not isinstance(key, VStr):
             raise OutOfSubset("dict key %r" % (key,), node)
+        if cell.default:
+            if cell.ek != "py":
+                raise OutOfSubset("defaultdict of %s" % cell.ek, node)
+            return VPy(z3.If(z3.Select(cell.keys, key.e), z3.Select(cell.vals, key.e), PyVal.pnone))
         if strict:
             self.safety(st, "KeyError", z3.Select(cell.keys, key.e), node, "dictionary key may be absent")
         return self.materialise(wrap(cell.ek, z3.Select(cell.vals, key.e)), st)
